@@ -251,6 +251,7 @@ impl<S: Scenario> Driver for Drv<S> {
             if ran {
                 polls += 1;
                 STEP.with(|s| s.set(s.get() + 1));
+                self.rec.lock().unwrap().polls = polls;
             }
             let mut wg = self.world.borrow_mut();
             let Some(world) = wg.as_mut() else {
